@@ -51,6 +51,9 @@ Proof.
   destruct (validate (export s)); [reflexivity|discriminate].
 Qed.
 
+Lemma service_import_total_lemma s : invb s = true -> quietb s = true -> import (export s) <> None.
+Proof. intros Hinv Hq. rewrite (service_roundtrip s Hinv Hq). discriminate. Qed.
+
 Lemma service_export_fixpoint_partial_lemma s :
   invb s = true -> quietb s = true -> exists s', import (export s) = Some s' /\ export s' = export s.
 Proof. intros Hinv Hq. exists s. split; [apply service_roundtrip; assumption|reflexivity]. Qed.
